@@ -3,7 +3,7 @@
 # (outside /repo and /verif): clean tree -> demo exits 0; patched tree -> builds,
 # 176/176 tests pass, demo exits non-zero.  Worktree is left clean.
 D=$(cd "$1" && pwd)
-WT=/tmp/seed/confirm-wt
+WT=/tmp/seed/confirm-wt$SEED_SLOT
 B=$WT/_b
 [ -d $WT ] || git -C /repo worktree add --detach $WT HEAD >/dev/null 2>&1
 git -C $WT checkout -q --detach $(git -C /repo rev-parse HEAD) 2>/dev/null
